@@ -509,3 +509,15 @@ def structurally_non_none(f: FuncInfo, site: ast.AST, x: ast.AST) -> bool:
         return False
 
     return any(within(e) for e in host.exprs() if any(y is site for y in ast.walk(e)))
+
+
+def snapshot_iteration(e: ast.AST, me: str, attr: str) -> bool:
+    """`e` (the iterable of a loop that runs callbacks) is a copy of self.<attr>: a full slice, .copy(), or list()/tuple()/set()/
+    frozenset()/sorted() of it -- so a callback that adds to or removes from the collection cannot shift the iteration."""
+    if isinstance(e, ast.Subscript) and self_attr(e.value, me) == attr and isinstance(e.slice, ast.Slice) and e.slice.lower is None and e.slice.upper is None and e.slice.step is None:
+        return True
+    if isinstance(e, ast.Call) and isinstance(e.func, ast.Attribute) and e.func.attr == 'copy' and self_attr(e.func.value, me) == attr:
+        return True
+    if isinstance(e, ast.Call) and isinstance(e.func, ast.Name) and e.func.id in ('list', 'tuple', 'set', 'frozenset', 'sorted') and e.args and self_attr(e.args[0], me) == attr:
+        return True
+    return False
